@@ -288,8 +288,19 @@ impl World {
         }
         if t.chance(p.dup, 1000) {
             self.stats.inc("fault.dup");
-            let d2 = delay(t, self) + t.draw(4) as i64 * self.link.base_us;
-            self.schedule(now + d2, Ev::Arrive { to, frame: frame.clone(), corrupted: 0, pkt: pkt.clone() });
+            if t.draw(3) == 2 {
+                // a burst of stale copies, much later (they overtake nothing but arrive after the
+                // conversation has moved on: old ACKs / window values, old data)
+                let k = 1 + t.draw(4) as i64;
+                let late = *t.pick(&[50_000i64, 300_000, 1_000_000, 2_500_000, 6_000_000]);
+                self.stats.inc("fault.dup-late-burst");
+                for i in 0..k {
+                    self.schedule(now + late + i * 1_000, Ev::Arrive { to, frame: frame.clone(), corrupted: 0, pkt: pkt.clone() });
+                }
+            } else {
+                let d2 = delay(t, self) + t.draw(4) as i64 * self.link.base_us;
+                self.schedule(now + d2, Ev::Arrive { to, frame: frame.clone(), corrupted: 0, pkt: pkt.clone() });
+            }
         }
         self.schedule(now + d, Ev::Arrive { to, frame, corrupted: 0, pkt });
         if let Some((h, hp)) = self.swap_hold[from].take() {
